@@ -497,6 +497,12 @@ func scenario(x *explore.X, product bool, ncfg int) {
 		choose = x.ChooseFree
 	}
 	cfgk := choose("config", ncfg)
+	// (round 9) the next hop is selected by a PAC script instead of --proxy / nothing: the proxy-selection function of
+	// the transport is handed the live URL of the request that is about to be written
+	viaPAC := false
+	if !product {
+		viaPAC = x.Choose("next-hop-selected-by-pac", 2) == 1
+	}
 	if !product {
 		e.rules = x.Choose("header-rules", len(ruleSets))
 		opts.RequestHeaders = ruleSets[e.rules]
@@ -506,6 +512,10 @@ func scenario(x *explore.X, product bool, ncfg int) {
 	switch cfgk {
 	case 1:
 		opts.Upstream = "http://up.test:8080"
+		if viaPAC {
+			opts.Upstream = ""
+			opts.PAC = `function FindProxyForURL(url, host) { return "PROXY up.test:8080"; }`
+		}
 		nextHopAddr = "up.test:8080"
 		e.viaUpstream = true
 	case 2:
@@ -514,6 +524,9 @@ func scenario(x *explore.X, product bool, ncfg int) {
 		nextHopAddr = originHost + ":443"
 		pki = world.NewPKI("harness origin CA")
 		opts.TransportCAPEM = pki.CAPEM
+	}
+	if viaPAC && cfgk != 1 {
+		opts.PAC = `function FindProxyForURL(url, host) { return "DIRECT"; }`
 	}
 	// history: 0 none, 1..5 one earlier request, 6.. two earlier requests
 	hk := historyKinds()
